@@ -429,6 +429,87 @@ def resolve_owner(qn):
     return obj, parts[-1]
 
 
+def replay_region(target, I, env, model, outcome, nz, out):
+    """region targets (start_at [, cut_at]): the real statements of the region are compiled from the
+    real source and executed natively on the model's locals; the locals they assign are compared
+    with the prediction"""
+    import ast as _ast
+    from .interp import func_node, find_stmt, assigned_names_direct
+    from .target import resolve
+
+    live = resolve(target.func)
+    fnode, mod = func_node(live)
+    k = find_stmt(fnode.body, target.start_at)
+    k2 = find_stmt(fnode.body, target.cut_at) if target.cut_at else len(fnode.body)
+    stmts = fnode.body[k:k2]
+    if any(isinstance(n, (_ast.Return, _ast.Yield)) for st in stmts for n in _ast.walk(st)):
+        out["note"] = "region contains return/yield: not replayed natively"
+        return out
+    try:
+        nlocals = {name: nz.nat(v) for name, v in env["locals"].items()}
+    except CannotNativize as e:
+        out["note"] = f"cannot build native locals: {e}"
+        return out
+    out["inputs"] = {"locals": {k_: show(v) for k_, v in nlocals.items() if not isinstance(v, type(_ast))}}
+    code = compile(_ast.fix_missing_locations(_ast.Module(body=stmts, type_ignores=[])), f"<region of {target.func}>", "exec")
+    g = dict(mod.__dict__)
+    patch = Patch()
+    queues = {}
+    for qn, r in I.override_log:
+        queues.setdefault(qn.split("@")[0], []).append(r)
+    try:
+        for qn in target.overrides:
+            base = qn.split("@")[0]
+            try:
+                owner, name = resolve_owner(base)
+            except Exception:
+                continue
+
+            def stub(*a, __q=base, **kw):
+                q = queues.get(__q, [])
+                if not q:
+                    return None
+                try:
+                    return Nativizer(I, model, pre=False).nat(q.pop(0))
+                except CannotNativize:
+                    return None
+
+            patch.set(owner, name, stub)
+        try:
+            exec(code, g, nlocals)
+            observed = ("return", None)
+        except BaseException as e:  # noqa: BLE001
+            observed = ("raise", e)
+    finally:
+        patch.undo()
+    if observed[0] == "raise":
+        out["observed"] = {"raised": type(observed[1]).__name__, "message": str(observed[1])[:200]}
+        out["confirmed"] = outcome[0] == "raise" and isinstance(observed[1], outcome[1].cls)
+        return out
+    if outcome[0] == "raise":
+        out["observed"] = {"completed": True}
+        return out
+    post = Nativizer(I, model, pre=False)
+    post.pool = nz.pool
+    names = sorted(assigned_names_direct(stmts))
+    pl = env.get("__locals") or {}
+    pred, obs = {}, {}
+    ok = True
+    for n in names:
+        if n in pl and n in nlocals:
+            try:
+                pv = post.nat(pl[n])
+            except CannotNativize:
+                continue
+            pred[n], obs[n] = show(pv), show(nlocals[n])
+            if not deep_match(pv, nlocals[n]):
+                ok = False
+    out["predicted"] = {"locals": pred}
+    out["observed"] = {"locals": obs}
+    out["confirmed"] = ok and bool(pred)
+    return out
+
+
 def replay_path(target, I, env, model, outcome):
     """outcome: ('return', V) | ('raise', PyExc) | ('cut', None).  Returns a json-able dict."""
     import sys
@@ -464,8 +545,7 @@ def replay_path(target, I, env, model, outcome):
         out["note"] = f"nativisation failed: {e!r}"
         return out
     if target.start_at is not None:
-        out["note"] = "tail half of a cut-point proof: not replayed natively (the real function cannot be started in the middle)"
-        return out
+        return replay_region(target, I, env, model, outcome, nz, out)
     cut_reached = bool(env.get("__cut"))
     # native stubs for the callee contracts, returning what the model says they return
     log = list(I.override_log)
